@@ -251,3 +251,7 @@ func SigValid(alg string, key, msg, sig []byte) bool {
 func And(a, b bool) bool     { return a && b }
 func Or(a, b bool) bool      { return a || b }
 func Implies(a, b bool) bool { return !a || b }
+
+// AssumeHashInjective adds, under the executor, the assumption that the ideal hash maps different inputs
+// to different digests (collision freedom of SHA-256 is assumed, not checked).  Natively a no-op.
+func AssumeHashInjective() {}
